@@ -196,6 +196,7 @@ func (g *Gen) instr(b *ssa.BasicBlock, ins ssa.Instruction, st *State, r string)
 		st.A = an
 	case *ssa.Send:
 		g.stats.Abstractions["chan-send"]++
+		g.commSites("send", x, []*ssa.SelectState{{Dir: types.SendOnly, Chan: x.Chan, Send: x.X}}, st, r)
 	case *ssa.Select:
 		g.selectInstr(x, st, r)
 	case *ssa.Range:
@@ -778,18 +779,23 @@ func (g *Gen) selectInstr(x *ssa.Select, st *State, r string) {
 	g.vals[x] = Val{Tuple: tup}
 }
 
-// selectSites applies "site select#k assert ..." clauses: assertions about the communications a select
-// statement offers. $ch<i> is the channel of case i, $val<i> the value offered by a send case.
+// commSites applies "site select#k ..." / "site send#k ..." clauses: assertions and ghost updates attached
+// to a communication statement. $ch<i> is the channel of case i, $val<i> the value offered by a send case
+// (a plain send statement is case 0).
 func (g *Gen) selectSites(x *ssa.Select, st *State, r string) {
+	g.commSites("select", x, x.States, st, r)
+}
+
+func (g *Gen) commSites(kind string, x ssa.Instruction, states []*ssa.SelectState, st *State, r string) {
 	if g.con == nil || len(g.con.Sites) == 0 {
 		return
 	}
 	var env *Env
 	for _, sc := range g.con.Sites {
-		if sc.Match != "select" || sc.Kind != "assert" {
+		if sc.Match != kind {
 			continue
 		}
-		ck := "site:select"
+		ck := "site:" + kind
 		if g.siteSeen == nil {
 			g.siteSeen = map[string]map[ssa.Instruction]int{}
 		}
@@ -808,12 +814,12 @@ func (g *Gen) selectSites(x *ssa.Select, st *State, r string) {
 			b := x.Block()
 			idx := 0
 			for i, ins := range b.Instrs {
-				if ins == ssa.Instruction(x) {
+				if ins == x {
 					idx = i
 				}
 			}
 			vars := g.namesAt(b, idx)
-			for i, s := range x.States {
+			for i, s := range states {
 				if v, ok := g.valOpt(s.Chan); ok {
 					vars[fmt.Sprintf("$ch%d", i)] = v
 				}
@@ -823,15 +829,31 @@ func (g *Gen) selectSites(x *ssa.Select, st *State, r string) {
 					}
 				}
 			}
-			env = g.envFor(vars, st, st)
+			env = g.envFor(vars, st, g.old)
 		}
-		t := g.mustClause(env, sc.E, "site select")
-		name := fmt.Sprintf("%s/site:select#%d", shortKey(g.key), sc.Ord)
-		g.counters[name]++
-		if g.counters[name] > 1 {
-			name = fmt.Sprintf("%s@%d", name, g.counters[name]-1)
+		switch sc.Kind {
+		case "assert":
+			t := g.mustClause(env, sc.E, "site "+kind)
+			name := fmt.Sprintf("%s/site:%s#%d", shortKey(g.key), kind, sc.Ord)
+			g.counters[name]++
+			if g.counters[name] > 1 {
+				name = fmt.Sprintf("%s@%d", name, g.counters[name]-1)
+			}
+			g.oblige(name, "site-assert", sc.Tags, r, t, sc.Src, x.Pos())
+		case "ghost", "ghostafter":
+			lv := env.tr(sc.LHS)
+			if !lv.isLv() || lv.GKind == "" {
+				panic(fmt.Errorf("site ghost update: %s is not a ghost location", sc.LHS))
+			}
+			rv := env.tr(sc.E)
+			var t string
+			if seqLike(rv) {
+				t = env.asSeq(rv)
+			} else {
+				t = env.rv(rv).T
+			}
+			g.setHeap(st, lv.GKind, "(ite "+r+" (store "+g.heap(st, lv.GKind)+" "+lv.Addr+" "+t+") "+g.heap(st, lv.GKind)+")")
 		}
-		g.oblige(name, "site-assert", sc.Tags, r, t, sc.Src, x.Pos())
 	}
 }
 
@@ -941,7 +963,7 @@ func (g *Gen) siteClauses(b *ssa.BasicBlock, ins ssa.CallInstruction, st *State,
 					}
 				}
 			}
-			env = g.envFor(vars, st, st)
+			env = g.envFor(vars, st, g.old)
 		}
 		switch sc.Kind {
 		case "assert":
